@@ -71,8 +71,21 @@ struct Gen {
     nl = std::min(nl, maxlinks);
     int64_t budget = thorough ? 260000 : 140000;   // total sample*channel budget per stream keeps runs short
     std::vector<long> used;
+    // "many links": 8..40 very short links (drawn from three recipes, so that only three encodes are needed) -- the link tables are grown many
+    // times, the chained open recurses once per link, several links share one chunk of the backward scans, most seeks cross links
+    std::vector<Recipe> tiny;
+    if (maxlinks >= 5 && (prop == "C03" || prop == "C07" || prop == "C08" || prop == "C09" || prop == "C10" || prop == "C13") && g.chance(0.02)) {
+      nl = (int)g.range(8, thorough ? 40 : 20); p.recs[0].set("manylinks", nl);
+      for (int j = 0; j < 3; j++) { Recipe z = pool_recipe(c.master, g.below(pool), false); z.ch = std::min(z.ch, 2); z.mute = 0; z.cut = z.trim = z.bs64 = 0; z.n = g.chance(0.3) ? (int64_t)g.below(4) : g.range(1, 2500); tiny.push_back(z); }
+    }
     for (int i = 0; i < nl; i++) {
       Recipe r; int tries = 0; std::shared_ptr<Link> l;
+      if (!tiny.empty()) {
+        r = tiny[g.below(tiny.size())]; l = get_link(r); if (!l->ok || l->ref_err) continue;
+        Rec &lr = p.add("link"); r.to(lr); int pol = (int)g.below(5); long serial; do { serial = (long)g.below(1 << 30); } while (std::find(used.begin(), used.end(), serial) != used.end()); used.push_back(serial);
+        lr.set("pol", pol).set("k", pol == 1 ? (int)g.range(1, 12) : pol == 4 ? (int)g.range(1, 6) : 4).set("serial", serial);
+        continue;
+      }
       do { r = pool_recipe(c.master, g.below(pool), many_ch); if (r.trim && (prop == "C20" || prop == "C19" || prop == "C03" || prop == "C13" || prop == "C12" || prop == "C17")) r.trim += r.trim & 1; /* half rate is toggled in these histories: keep the cut on the even grid */ if (p_bs64 > 0 && g.chance(p_bs64)) { r.bs64 = 1; r.cut = 0; r.trim = 0; r.sig = g.chance(0.75) ? 6 : 1; r.n = std::max<int64_t>(r.n, 3000); } l = get_link(r); } while ((!l->ok || l->ref_err || r.n * r.ch > budget) && ++tries < 20);
       if (prop == "C17" && g.chance(0.03)) { Recipe z; z.ch = g.chance(0.7) ? 255 : 254; z.rate = 8000; z.q = 0.4; z.n = 1200 + 600 * (int64_t)g.below(3); z.sig = 2; z.seed = 7; z.ncomm = 1; auto lz = get_link(z); if (lz->ok && !lz->ref_err) { r = z; l = lz; } }   // the format's maximum channel count (the quick tier's recipe pool is too small to be sure of containing it)
       if (prop != "C04" && g.chance(prop == "C20" ? 0.14 : 0.07)) {   // a hand-built link (craft.cpp): block-size and mode patterns the encoder never produces, genuine 64-sample short blocks; noise audio with samples far outside +-1 (NaN samples are skipped by the integer oracle)
